@@ -5,7 +5,7 @@ use crate::obs::{fp_combine, fp_str};
 use crate::ops::*;
 use crate::refparser::{agrees, Expect, RefParser};
 use crate::report::*;
-use avt::parser::{Function, Parser};
+use avt::parser::{Function, Parser, State};
 use rayon::prelude::*;
 use serde_json::{json, Value};
 use std::time::Instant;
@@ -157,6 +157,8 @@ const LEAK_PREFIXES: &[&str] = &[
     "\x1b[9;8;7;6:5:4;3;2;1m",
     "\x1b[88:77:66:55:44:33;22:11:99;1:2:3:4:5:6m\x1bP9:9\x1b\\",
     "\u{9b}?65535;65535;65535;65535 q",
+    // parameters whose head is empty or zero but which have sub-parameters, in every slot
+    "\x1b[0:4;:2;0:0:7;:;0:1:2:3:4:5m",
 ];
 
 fn dispatch_shapes(ctx: &Ctx, rep: &mut Report) {
@@ -296,6 +298,106 @@ fn sgr_shapes(ctx: &Ctx, rep: &mut Report) {
     }
 }
 
+/// A string lasts until its terminator however long it is and whatever came before: one
+/// payload of 2^20, 2^22 + 1 and 5 000 000 (thorough 2^24 + 1) characters for each string
+/// kind and introducer, and 6000 (thorough 20 000) strings of 1000 characters in a row behind
+/// the 8-bit introducers with nothing else in between - the parser stays in the string state,
+/// dispatches nothing, and is in ground after the terminator.
+fn long_strings(ctx: &Ctx, rep: &mut Report) {
+    let intros = ["\x1b]", "\u{9d}", "\x1bP", "\u{90}", "\x1bX", "\u{98}", "\x1b^", "\u{9e}", "\x1b_", "\u{9f}"];
+    let lens: Vec<usize> = ctx.tier.pick(vec![1 << 20, (1 << 22) + 1, 5_000_000], vec![1 << 20, (1 << 22) + 1, 5_000_000, (1 << 24) + 1]);
+    let many = ctx.tier.pick(6000usize, 20_000usize);
+    let bad: Vec<String> = intros
+        .par_iter()
+        .filter_map(|intro| {
+            let r = guarded(|| {
+                for &n in &lens {
+                    let mut p = Parser::new();
+                    for ch in intro.chars() {
+                        if p.feed(ch).is_some() {
+                            return Some("the introducer dispatched a function".to_string());
+                        }
+                    }
+                    for i in 0..n {
+                        if let Some(f) = p.feed('p') {
+                            return Some(format!("payload character {} of {} dispatched {:?}", i + 1, n, f));
+                        }
+                        if p.state == State::Ground {
+                            return Some(format!("the parser fell back to ground after {} of {} payload characters", i + 1, n));
+                        }
+                    }
+                    let _ = p.feed('\u{9c}');
+                    if p.state != State::Ground {
+                        return Some(format!("not in ground after the terminator of a {}-character string", n));
+                    }
+                }
+                // running totals: many strings in a row
+                let mut p = Parser::new();
+                for k in 0..many {
+                    for ch in intro.chars() {
+                        let _ = p.feed(ch);
+                    }
+                    for i in 0..1000 {
+                        if let Some(f) = p.feed('t') {
+                            return Some(format!("string {} payload character {} dispatched {:?}", k + 1, i + 1, f));
+                        }
+                        if p.state == State::Ground {
+                            return Some(format!("string {} of {} fell back to ground at payload character {}", k + 1, many, i + 1));
+                        }
+                    }
+                    let _ = p.feed('\u{9c}');
+                    if p.state != State::Ground {
+                        return Some(format!("string {} of {}: not in ground after its terminator", k + 1, many));
+                    }
+                }
+                None
+            });
+            match r {
+                Ok(None) => None,
+                Ok(Some(d)) => Some(format!("strings introduced by {}: {}", esc(intro), d)),
+                Err(m) => Some(format!("strings introduced by {}: panic: {}", esc(intro), m)),
+            }
+        })
+        .collect();
+    let n = intros.len() as u64 * (lens.len() as u64 + 1);
+    rep.evaluations += n;
+    rep.traces_validated += n;
+    rep.parts.push(json!({"part":"long-strings","introducers":intros.len(),"lengths":lens,"strings_in_a_row":many,"violating":bad.len()}));
+    println!("part long-strings: {} introducers x {} lengths + {} strings in a row, {} violating", intros.len(), lens.len(), many, bad.len());
+    if let Some(d) = bad.first() {
+        emit_violation(ctx, rep, "C03", json!({"part":"long-strings","oracle":"state-machine-table","observed":d}));
+        rep.violations += bad.len() as u64 - 1;
+    }
+}
+
+/// "independent of whatever sequences were parsed before": after each sequence that other
+/// terminals implement and this one ignores, every C1 control and the whole continuation are
+/// understood as by a fresh parser.
+fn after_foreign(ctx: &Ctx, rep: &mut Report) {
+    let cont: String = (0x80u32..=0x9f).filter_map(char::from_u32).flat_map(|c| [c, '\u{9c}', 'x']).chain("\u{9b}5;6H\x1b[1;2m\x1bM\u{9d}t\u{9c}y".chars()).collect();
+    let fresh: Vec<String> = {
+        let mut p = Parser::new();
+        cont.chars().map(|ch| format!("{:?}/{:?}", p.feed(ch), p.state)).collect()
+    };
+    let mut n = 0u64;
+    for f in crate::alphabets::KNOWN_FOREIGN {
+        let mut p = Parser::new();
+        for ch in f.chars() {
+            let _ = p.feed(ch);
+        }
+        let got: Vec<String> = cont.chars().map(|ch| format!("{:?}/{:?}", p.feed(ch), p.state)).collect();
+        n += 1;
+        if got != fresh {
+            let i = got.iter().zip(fresh.iter()).position(|(a, b)| a != b).unwrap_or(0);
+            emit_violation(ctx, rep, "C03", json!({"part":"after-foreign-sequences","sequence":esc(f),"oracle":"dispatch","observed":format!("after {}: character {} ({:?}) of the continuation gives {}, a fresh parser gives {}", esc(f), i, cont.chars().nth(i), got[i], fresh[i])}));
+            break;
+        }
+    }
+    rep.evaluations += n;
+    rep.traces_validated += n;
+    rep.parts.push(json!({"part":"after-foreign-sequences","sequences":n}));
+}
+
 /// ESC Fe vs its C1 twin from every parser state: same state, same function,
 /// same behaviour for a following `5;6H`.
 fn esc_fe_twins(ctx: &Ctx, rep: &mut Report) {
@@ -397,6 +499,8 @@ pub fn run(ctx: &Ctx) -> Report {
     dispatch_shapes(ctx, &mut rep);
     sgr_shapes(ctx, &mut rep);
     esc_fe_twins(ctx, &mut rep);
+    after_foreign(ctx, &mut rep);
+    long_strings(ctx, &mut rep);
     let p = parts!(ctx.tier);
     run_part(ctx, &mut rep, &p);
     super::stream::run(ctx, &mut rep, "C03", "stream-segmentation-through-feed_str", "feed_str-segments-like-the-table", false);
@@ -428,6 +532,12 @@ pub fn replay(ctx: &Ctx, v: &Value) -> bool {
             res.is_err()
         }
         "stream-segmentation-through-feed_str" => super::stream::replay(v, false),
+        "long-strings" | "after-foreign-sequences" => {
+            let mut rep = Report::new();
+            after_foreign(ctx, &mut rep);
+            long_strings(ctx, &mut rep);
+            rep.violations > 0
+        }
         "esc-fe-twins" => {
             let mut rep = Report::new();
             esc_fe_twins(ctx, &mut rep);
